@@ -42,7 +42,9 @@ pub struct RunState {
     pub start: Option<tokio::time::Instant>,
     pub end_vms: u64,
     pub tasks: Vec<TaskInfo>,
-    pub sched_points: BTreeMap<&'static str, (u64, u64)>,
+    /// name -> (times reached, times it yielded, order stamp of the last time)
+    pub sched_points: BTreeMap<&'static str, (u64, u64, u64)>,
+    pub sched_seq: u64,
     /// schedule points that yield in this run (None = all)
     pub sched_yield_den: u32,
 }
@@ -73,6 +75,7 @@ impl RunState {
             end_vms: 0,
             tasks: Vec::new(),
             sched_points: BTreeMap::new(),
+            sched_seq: 0,
             sched_yield_den: 2,
         }
     }
@@ -789,8 +792,11 @@ where
             let den = if name.starts_with("observe.") { 0 } else { with_state(|s| s.sched_yield_den) };
             let y = if den == 0 { false } else { choice(den) == 1 };
             with_state(|s| {
-                let e = s.sched_points.entry(name).or_insert((0, 0));
+                s.sched_seq += 1;
+                let stamp = s.sched_seq;
+                let e = s.sched_points.entry(name).or_insert((0, 0, 0));
                 e.0 += 1;
+                e.2 = stamp;
                 if y {
                     e.1 += 1;
                     *s.probes.entry("h2-yielded").or_insert(0) += 1;
@@ -953,6 +959,12 @@ impl Drop for PendingOp {
 /// How often the named schedule / observation point of the code under test was reached
 pub fn sched_point_count(name: &str) -> u64 {
     with_state(|s| s.sched_points.get(name).map(|e| e.0).unwrap_or(0))
+}
+
+/// Order stamp of the last time the named point was reached (0: never); stamps of different names
+/// compare as "which came last"
+pub fn sched_point_last(name: &str) -> u64 {
+    with_state(|s| s.sched_points.get(name).map(|e| e.2).unwrap_or(0))
 }
 
 /// Names of the operations issued through `op` that have not completed, oldest first
